@@ -220,3 +220,97 @@ def fault_judge_one(o, sc):
 
 
 fault_judge = no_panic_judge(fault_judge_one)
+
+
+# ------------------------------------------------------------------ C04 reads of device outputs
+
+def reads_battery():
+    S = [("in", "A", 8, 0), ("in", "CLK", 1, 0), ("out", "Y", 8), ("out", "DONE", 1)]
+    b = []
+    b.append(Scenario("A Y\n(Y) X\n(Y) X\n(Y+1) X\n", S, answers={0: [5, 0], 1: [6, 0], 2: [7, 0], 3: [8, 0]},
+                      default_answer=[0, 0], expect={"row_inputs": [["5", "0"], ["6", "0"], ["8", "0"]]},
+                      note="row entries read the previous answer"))
+    b.append(Scenario("CLK A Y\nC (Y) X\n0 (Y) X\n", S, answers={0: [1, 0], 1: [50, 0], 2: [60, 0], 3: [9, 0]},
+                      default_answer=[0, 0], override_write=False,
+                      expect={"row_inputs": [["1", "0"], ["1", "1"], ["1", "0"], ["9", "0"]]},
+                      note="mid-clock calls do not refresh reads"))
+    b.append(Scenario("A Y\nlet Y = 3;\n(Y) X\n", S, default_answer=[7, 0], expect={"row_inputs": [["3", "0"]]},
+                      note="variable shadows the output of the same name"))
+    b.append(Scenario("A Y\nlet v = Y + 1;\nloop(i, Y)\n(v) X\nend loop\n", S, answers={0: [2, 0]}, default_answer=[100, 0],
+                      expect={"row_inputs": [["3", "0"], ["3", "0"]]}, note="let and loop bound read the construction answer"))
+    b.append(Scenario("A Y\nwhile(Y < 3)\n(Y) X\nend while\n", S, answers={0: [0, 0], 1: [1, 0], 2: [2, 0], 3: [3, 0]},
+                      default_answer=[9, 0], expect={"row_inputs": [["0", "0"], ["1", "0"], ["2", "0"]]},
+                      note="while condition re-reads after every row"))
+    b.append(Scenario("A Y DONE\n1 X X\n1 X X\n(Y) X X\n", S, answers={0: [10, 0], 1: [11, 0], 2: [12, 0]},
+                      default_answer=[0, 0], expect={"row_inputs": [["1", "0"], ["1", "0"], ["12", "0"]]},
+                      note="identical consecutive rows still refresh reads"))
+    b.append(Scenario("A Y DONE\nwhile(!DONE)\n1 X X\nend while\n2 X X\n", S, answers={0: [0, 0], 1: [0, 0], 2: [0, 0], 3: [0, 1]},
+                      default_answer=[0, 1], max_rows=20,
+                      expect={"row_inputs": [["1", "0"], ["1", "0"], ["1", "0"], ["2", "0"]]},
+                      note="polling loop with constant rows terminates when the device says so"))
+    b.append(Scenario("A Y\n(Y) X\n", S, layout=["DONE"], default_answer=[0],
+                      expect={"new": "err", "calls": 1}, note="read output not supplied: constructor fails"))
+    b.append(Scenario("A Y\nlet Y = Y + 1;\n(Y) X\n", S, layout=["DONE"], default_answer=[0],
+                      expect={"new": "err", "calls": 1}, note="self-referential let still reads the output"))
+    b.append(Scenario("A Y\nlet Y = Y + 1;\n(Y) X\n", S, default_answer=[4, 0], expect={"row_inputs": [["5", "0"]]},
+                      note="self-referential let"))
+    b.append(Scenario("A Y\n1 X\n(Y) X\n", S, answers={0: [1, 0], 1: ["Z", 0]}, default_answer=[0, 0],
+                      expect={"items": ["row", "err"]}, note="reading Z is an error item"))
+    b.append(Scenario("A Y\n1 X\n(Y) X\n", S, answers={0: [1, 0], 1: ["X", 0]}, default_answer=[0, 0],
+                      expect={"items": ["row", "err"]}, note="reading X is an error item"))
+    b.append(Scenario("A Y V\ndeclare V = 8 / Y;\nlet Y = 5;\n(Y) X X\n(Y) X X\n(Y) X X\n", S,
+                      answers={0: [1, 0], 1: [1, 0], 2: [0, 0], 3: [1, 0]}, default_answer=[1, 0], stop_on_err=False,
+                      expect={"row_inputs_loose": [["5", "0"], ["5", "0"]], "items": ["row", "err", "row"]},
+                      note="variable keeps shadowing the output after a failed row"))
+    return b
+
+
+def literal_judge_one(o, sc):
+    """Compare an observation with the literal expectations stored in the scenario."""
+    e = sc.expect
+    if "new" in e:
+        st = o.stage.get("NEW", ("missing", ""))[0]
+        if st != e["new"]:
+            return "constructor result is %s, expected %s (%s)" % (st, e["new"], sc.note)
+    if "calls" in e and len(o.calls) != e["calls"]:
+        return "%d driver calls, expected %d (%s)" % (len(o.calls), e["calls"], sc.note)
+    if "row_inputs" in e:
+        got = [[v for _, v, _ in r["inputs"]] for r in o.rows]
+        if got != e["row_inputs"]:
+            return "rows carry inputs %s, expected %s (%s)" % (got, e["row_inputs"], sc.note)
+    if "row_inputs_loose" in e:
+        got = [[v for _, v, _ in r["inputs"]] for r in o.rows]
+        if got != e["row_inputs_loose"]:
+            return "rows carry inputs %s, expected %s (%s)" % (got, e["row_inputs_loose"], sc.note)
+    if "items" in e:
+        got = [i[0] for i in o.items if i[0] != "end"]
+        if got[:len(e["items"])] != e["items"]:
+            return "items are %s, expected %s (%s)" % (got, e["items"], sc.note)
+    if "row_expected" in e:
+        got = [[x for _, x, _, _, _ in r["outputs"]] for r in o.rows]
+        if got != e["row_expected"]:
+            return "rows carry expected values %s, expected %s (%s)" % (got, e["row_expected"], sc.note)
+    if "row_outputs" in e:
+        got = [[x for _, _, x, _, _ in r["outputs"]] for r in o.rows]
+        if got != e["row_outputs"]:
+            return "rows report outputs %s, expected %s (%s)" % (got, e["row_outputs"], sc.note)
+    if "lines" in e:
+        got = [r["line"] for r in o.rows]
+        if got != e["lines"]:
+            return "rows report lines %s, expected %s (%s)" % (got, e["lines"], sc.note)
+    if "vars" in e:
+        if o.vars != e["vars"]:
+            return "vars() after the rows are %s, expected %s (%s)" % (o.vars, e["vars"], sc.note)
+    if "parse" in e:
+        st = o.stage.get("PARSE", ("missing", ""))[0]
+        if st != e["parse"]:
+            return "parse result is %s, expected %s (%s)" % (st, e["parse"], sc.note)
+    if "bind" in e:
+        st = o.stage.get("BIND", ("missing", ""))[0]
+        if st != e["bind"]:
+            return "binding result is %s, expected %s (%s)" % (st, e["bind"], sc.note)
+    return None
+
+
+literal_judge = no_panic_judge(literal_judge_one)
+reads_judge = literal_judge
